@@ -765,6 +765,7 @@ func (l *undirectedMultiplexLocalMover) deltaQ(n graph.Node) (deltaQ float64, ds
 		c := l.communities[i]
 		var removal bool
 		var _dQadd float64
+		first := -1
 		for layer := 0; layer < l.g.Depth(); layer++ {
 			m2 := l.m2[layer]
 			if m2 == 0 {
@@ -779,14 +780,18 @@ func (l *undirectedMultiplexLocalMover) deltaQ(n graph.Node) (deltaQ float64, ds
 				// Do not consider layers with zero weighting.
 				continue
 			}
+			if first == -1 {
+				first = layer
+			}
 
 			var k_aC, sigma_totC float64 // C is a substitution for ^𝛼 or ^𝛽.
 			removal = false
 			for j, u := range c {
 				uid := u.ID()
 				if uid == id {
-					// Only mark and check src community on the first layer.
-					if layer == 0 {
+					// Only mark and check src community on the first
+					// layer that is considered.
+					if layer == first {
 						if src.community != -1 {
 							panic("community: multiple sources")
 						}
